@@ -108,13 +108,15 @@ func propC09(w *World, r *Report) {
 	}
 	checkBestOrder(w, r)
 	checkIDRangeOffset(w, r)
-	checkSeg12Break(w, r)
+	// seg12break (syntactic, keys[i] != keys[i-1]+1 only) is superseded by segstep, which also accepts the difference form
 	checkLangField(w, r)
 	checkMacRoman(w, r)
 	checkPerCode(w, r)
 	checkExplicitDelta(w, r)
 	checkSegmentSkip(w, r)
 	checkSegDelta(w, r)
+	checkCodeWrap(w, r)
+	RunSegStep(w, r)
 	checkFormat0Len(w, r)
 	checkDecoderParam(w, r)
 	checkLookupRange(w, r)
